@@ -38,6 +38,19 @@ theorem C20_source_add_test_case (hX : JExt X) (tree cn : Val) (t : Test) :
     orch_eval [haso, hswm, hX.hsub, hX.hset, hX.hstr, hX.hrepl, hX.hrcc, elemV, recordSet, TestStatus.name, TestStatus.truthy,
       caseTrace, junitChildren, Gen.cliJunitChildren, Gen.cliTestStatusFalsy, msgOf, tsV, strV, setV]
 
+/-- … explicitly (the model's `junitChildren` is a table regenerated from the SAME source, so a changed child tag would change model
+    and code alike — mutant K3 of notes/PHASE6_A4.md): the children are `childrenSpec` of the status. -/
+theorem C20_source_add_test_case_explicit (hX : JExt X) (tree cn : Val) (t : Test) :
+    Gen.c20oAddTestCaseSrc.runTr X [tree, testV t, cn] =
+      .ok (.none, caseTrace tree cn ⟨t.name, childrenSpec t.status⟩ t.status) := by
+  have haso := fun a v x st => callRet_of_runTr (C20_source_as_string_or hX a v) x st
+  have hswm := fun p tag m txt x st => callRet_of_runTr (C20_source_set_with_message hX p tag m txt) x st
+  obtain ⟨n, s⟩ := t
+  simp only [Gen.c20oAddTestCaseSrc, testV, tsV]
+  cases s <;>
+    orch_eval [haso, hswm, hX.hsub, hX.hset, hX.hstr, hX.hrepl, hX.hrcc, elemV, recordSet, TestStatus.name, TestStatus.truthy,
+      caseTrace, childrenSpec, Gen.cliTestStatusFalsy, msgOf, tsV, strV, setV]
+
 /-- the whole trace that renders a `JSuite` whose cases come from the tests `ts` -/
 def C20.junitTrace (tree tsv cn : Val) (j : JSuite) (ts : List Test) : List Val :=
   headerTrace tree tsv j ++ ts.flatMap fun t => caseTrace tree cn ⟨t.name, junitChildren t.status⟩ t.status
